@@ -316,7 +316,7 @@ def parse_fields(text, name_prefix=None, version=None, encoding_chars=None, vali
         name = "{0}_{1}".format(name_prefix, index + 1) if name_prefix is not None else None
         upper_name = name.upper() if name is not None else None
         try:
-            reference = references[name]['ref'] if references is not None else None
+            reference = references[upper_name]['ref'] if references is not None else None
         except KeyError:
             reference = None
 
